@@ -20,8 +20,19 @@ import copy
 from .canon import _assigned_names, _is_literal
 
 
+def _immutable_literal(e: ast.AST) -> bool:
+    """a constant, or a tuple of such: a list / dict / set display in a class body is one shared MUTABLE object, not a constant"""
+    if isinstance(e, ast.Constant):
+        return True
+    if isinstance(e, ast.UnaryOp) and isinstance(e.op, (ast.USub, ast.UAdd)) and isinstance(e.operand, ast.Constant):
+        return True
+    if isinstance(e, ast.Tuple):
+        return all(_immutable_literal(x) for x in e.elts)
+    return False
+
+
 def _closed_value(ct, owner, e: ast.AST) -> bool:
-    if _is_literal(e) and not isinstance(e, ast.Lambda):
+    if _immutable_literal(e):
         return True
     if isinstance(e, ast.Name):
         dotted = ct.resolve_name(owner.module, e.id)
